@@ -492,6 +492,8 @@ def random_file_trace(seed, tid, workdir, max_recs, trunc=True):
         if preset:
             g.position_format = (w, d)
         if boxm is not None:
+            if rng.random() < 0.3:
+                g.box_matrix = np.array([[7.0, 0.0, 0.0], [1.5, 8.0, 0.0], [-2.0, 2.5, 9.0]])      # an earlier box, replaced below
             handed = np.array(boxm, float)
             if handed.ndim == 2 and rng.random() < 0.4:
                 handed = np.asfortranarray(handed)
